@@ -107,6 +107,18 @@ func isLen(v ssa.Value) (ssa.Value, bool) {
 			return c.Call.Args[0], true
 		}
 	}
+	// a struct field that is stored once in this function, with len(x): m.Length = len(data)
+	if ld, ok := v.(*ssa.UnOp); ok && ld.Op == token.MUL {
+		if _, isField := ld.X.(*ssa.FieldAddr); isField && ld.Parent() != nil {
+			if sv, _, ok := singleFieldStore(ld.Parent(), ld); ok {
+				if c, ok := stripConv(sv).(*ssa.Call); ok {
+					if b, ok := c.Call.Value.(*ssa.Builtin); ok && b.Name() == "len" {
+						return c.Call.Args[0], true
+					}
+				}
+			}
+		}
+	}
 	return nil, false
 }
 
